@@ -285,7 +285,7 @@ CHECKS = [
     Check("query", _qcases, query_sym, query_real, labels=("below_diagonal", "straddles", "nested", "nonzero_cell"),
           doc="api.matrix dense/sparse == slice of the full matrix (symmetric completion / as stored), any chunk size",
           stubs=("E1 np.linspace", "E5 scipy.sparse.coo_matrix.toarray sums duplicates", "dict-backed HDF5 group"),
-          bounds=dict(quick="n<=3, K<=2, all windows, chunksize 1..K+1", thorough="n<=4, K<=3"), timeout=1500),
+          bounds=dict(quick="n<=3, K<=2, all windows, chunksize 1..K+1", thorough="n<=4, K<=3"), timeout=3000, split_depth=7),
     Check("slices", _slice_cases, slice_sym, slice_real, labels=("negative", "open_end"),
           doc="_process_slice against Python's slice resolution; axis length symbolic, bounds unbounded",
           bounds=dict(quick="axis length <= 6, slice bounds unbounded integers or None", thorough="axis length <= 40")),
